@@ -243,6 +243,20 @@ def gen_case_wellformed(rng, all_atom=None):
         descs.add(tdesc + d[-1])
         if rng.random() < 0.7:
             ter = [tdesc + d[-1] if rng.random() < 0.5 or d[-1] != '1' else tdesc]
+    if rng.random() < 0.3:
+        # one atom offers a growth descriptor and two (adjacent) terminal descriptors
+        i = rng.randrange(nf)
+        name, text = frags[i].split('=', 1)
+        k = text.find(']') + 1 if text.startswith('[#') else 1
+        # after the first atom's own first descriptor
+        j = text.find(']', k) + 1 if text[k:k + 1] in ('[', '=') else k
+        pair = ['$TA', '$TB'] if rng.random() < 0.7 else ['$TA', '$TA']
+        text = text[:j] + ''.join('[%s]' % t for t in pair) + text[j:]
+        frags[i] = name + '=' + text
+        for t in sorted(set(pair)):
+            frags.append('#E%s=%s[%s]' % (t[1:], 'C' if aa else '[#E%s]' % t[1:], t))
+            descs.add(t + '1')
+            ter.append(t + '1' if rng.random() < 0.5 else t)
     descs = sorted(descs)
     pr = {}
     for d in descs:
@@ -260,4 +274,6 @@ def gen_case_wellformed(rng, all_atom=None):
     if not aa:
         case['masses'] = {('F%d' % i): rng.choice([1, 2, 10]) for i in range(nf)}
         case['masses']['END'] = rng.choice([1, 3])
+        case['masses']['ETA'] = 1
+        case['masses']['ETB'] = 2
     return case
